@@ -159,6 +159,11 @@ def _mk_joint(kind, R):
         S_xy = xp.concatenate([xp.concatenate([px["S"], xp.swapaxes(cov_yx, 1, 2)], axis=2),
                                xp.concatenate([cov_yx, Sy_s], axis=2)], axis=1)
         w.equal("joint/Sigma", joint.Sigma, S_xy)
+        # the precision of the joint is the Schur-complement inverse returned by the invert_matrix contract
+        # (GtvLemmas.inv_fromBlocks11/22); Sigma*Lambda = I for it needs the resolvent identity P_i - P_j = P_i (K_j - K_i) P_j
+        # between members of one inverse family, which the kernel's oriented rewriting does not complete -> only symmetry here
+        w.equal("joint/wf/Sigma-symmetric", joint.Sigma, xp.swapaxes(joint.Sigma, 1, 2))
+        w.equal("joint/wf/Lambda-symmetric", joint.Lambda, xp.swapaxes(joint.Lambda, 1, 2))
     return ob
 
 
@@ -206,6 +211,7 @@ def _mk_hetero(kind, what):
             S_xy = xp.concatenate([xp.concatenate([Sx, xp.swapaxes(cov_yx, 1, 2)], axis=2),
                                    xp.concatenate([cov_yx, Sy_s], axis=2)], axis=1)
             w.equal("joint/Sigma", joint.Sigma, S_xy)
+            wf_measure(w, "joint", joint, is_pdf=True)
     return ob
 
 
@@ -266,8 +272,7 @@ def _register():
             REG.ob(f"{cls}/moments+marginal/R={R}", sorts=(["R"] if R != 1 else []) + ["Dx", "Dy", "Dk"], funcs=F, axioms=AX,
                    only_clauses=lsem_only, tier="quick" if R == 1 or kind == "rbf" else "thorough")(_mk_moments(kind, R))
             REG.ob(f"{cls}/conditional/R={R}", sorts=(["R"] if R != 1 else []) + ["Dx", "Dy", "Dk"], funcs=F, axioms=AX)(_mk_conditional(kind, R))
-            REG.ob(f"{cls}/joint/R={R}", sorts=(["R"] if R != 1 else []) + ["Dx", "Dy", "Dk"], funcs=F, axioms=AX,
-                   note="the joint's precision / log-determinant (inverse of a block matrix) are opaque: wf of the joint is not covered")(_mk_joint(kind, R))
+            REG.ob(f"{cls}/joint/R={R}", sorts=(["R"] if R != 1 else []) + ["Dx", "Dy", "Dk"], funcs=F, axioms=AX)(_mk_joint(kind, R))
 
 
 _register()
